@@ -69,8 +69,8 @@ def gen(rng):
     tm = ig.gen_tempo(rng, R, groups[-1]["tick"] + R)
     tm = [(t, n if n >= 1000 else 60000) for t, n in tm]
     tracks = [("ExpertSingle", lines)]
-    if rng.random() < 0.5:
-        tracks.append(("HardSingle", []))
+    if rng.random() < 0.6:
+        tracks.append(("HardSingle", rng.choice([[], ["0 = S 2 100", "50 = E solo"]])))
     if rng.random() < 0.4:
         g2 = ig.gen_groups(rng, R, 3, gaps=[R])
         tracks.append(("ExpertDrums", ig.section_lines(rng, g2, R, sp=False, tev=False)))
@@ -118,6 +118,9 @@ def gen(rng):
             calls.append((G, X, ("tick", last_tick + 1), None))
             calls.append((G, X, ("tick", last_tick + 1), ("tick", last_tick + 10 * R)))
     calls.append((G, "Hard", None, None))                    # note-less (if present) or absent track
+    calls.append((G, "Hard", ("tick", 0), ("tick", 768)))    # … also with explicit bounds of positive length
+    calls.append((G, "Hard", ("time", 0), ("time", 1000000)))
+    calls.append((G, "Hard", ("tick", 10), None))
     calls.append(("DoubleBass", "Expert", None, None))         # absent instrument
     calls.append((G, "Easy", ("tick", 0), ("tick", 10)))      # present instrument, absent difficulty
     calls.append((G, X, ("tick", -1), None))
